@@ -26,7 +26,6 @@ use std::sync::{Mutex, RwLock};
 
 use leptos::children::ToChildren;
 use leptos::prelude::*;
-use leptos_i18n::Locale as _;
 use leptos_i18n_router::verif_hooks as hooks;
 use leptos_i18n_router::I18nRoute;
 use leptos_router::components::RouteChildren;
@@ -621,6 +620,77 @@ fn styled_path(segs_before: &[String], rest: &[String], style: u8) -> String {
     p
 }
 
+/// what the model says about one switch step
+struct StepModel {
+    next_rests: BTreeSet<Vec<String>>,
+    matched_any: bool,
+    localized_differs: bool,
+    /// some matching route instance has an optional parameter that is present
+    opt_present: bool,
+    /// some matching route instance consumed segments and ends with elements that consume nothing
+    /// (absent optional, empty splat, index route "")
+    trailing_empty: bool,
+}
+
+fn step_model(table: &Table, cur_locale: usize, target: usize, cur_rests: &BTreeSet<Vec<String>>) -> StepModel {
+    let mut m = StepModel {
+        next_rests: BTreeSet::new(),
+        matched_any: false,
+        localized_differs: false,
+        opt_present: false,
+        trailing_empty: false,
+    };
+    for rest in cur_rests {
+        let ms = table.all_matches(cur_locale, rest);
+        if ms.is_empty() {
+            m.next_rests.insert(rest.clone());
+        }
+        for (r, b) in ms {
+            m.matched_any = true;
+            let inst = table.instantiate(r, target, &b);
+            if inst != *rest {
+                m.localized_differs = true;
+            }
+            m.next_rests.insert(inst);
+            // trigger classes of this instance
+            let pat = &table.routes[r];
+            let consuming: Vec<bool> = pat
+                .iter()
+                .zip(&b)
+                .map(|(seg, b)| match b {
+                    Bind::Lit => !table.seg_name(seg, cur_locale).is_empty(),
+                    Bind::One(_) => true,
+                    Bind::Absent => false,
+                    Bind::Many(v) => !v.is_empty(),
+                })
+                .collect();
+            if pat.iter().zip(&b).any(|(seg, b)| matches!((seg, b), (Seg::Opt(_), Bind::One(_)))) {
+                m.opt_present = true;
+            }
+            if consuming.iter().any(|c| *c) && consuming.last() == Some(&false) {
+                m.trailing_empty = true;
+            }
+        }
+    }
+    m
+}
+
+/// trigger classes the model predicts for the whole switch history of a case
+fn history_triggers(c: &Case) -> (bool, bool) {
+    let mut cur_locale = c.start;
+    let mut cur_rests: BTreeSet<Vec<String>> = BTreeSet::new();
+    cur_rests.insert(c.rest.clone());
+    let (mut opt, mut trail) = (false, false);
+    for (target, _) in &c.switches {
+        let m = step_model(&c.table, cur_locale, *target, &cur_rests);
+        opt |= m.opt_present;
+        trail |= m.trailing_empty;
+        cur_rests = m.next_rests;
+        cur_locale = *target;
+    }
+    (opt, trail)
+}
+
 struct SwitchOutcome {
     classes: Vec<String>,
     nontrivial: bool,
@@ -674,23 +744,9 @@ fn check_switches(
 
     for (step, (target, how)) in c.switches.iter().enumerate() {
         // expected rests under the target locale
-        let mut next_rests: BTreeSet<Vec<String>> = BTreeSet::new();
-        let mut matched_any = false;
-        let mut localized_differs = false;
-        for rest in &cur_rests {
-            let ms = c.table.all_matches(cur_locale, rest);
-            if ms.is_empty() {
-                next_rests.insert(rest.clone());
-            }
-            for (r, b) in ms {
-                matched_any = true;
-                let inst = c.table.instantiate(r, *target, &b);
-                if inst != *rest {
-                    localized_differs = true;
-                }
-                next_rests.insert(inst);
-            }
-        }
+        let sm = step_model(&c.table, cur_locale, *target, &cur_rests);
+        let next_rests = sm.next_rests.clone();
+        let (matched_any, localized_differs) = (sm.matched_any, sm.localized_differs);
         if localized_differs {
             nontrivial = true;
             classes.push("localized-segment-differs-between-A-and-B".into());
@@ -772,16 +828,7 @@ fn check_switches(
                         split(&p) == all
                     })
                 };
-                let opt_present = c
-                    .inst
-                    .as_ref()
-                    .map(|(r, b)| c.table.routes[*r].iter().zip(b).any(|(s, b)| matches!((s, b), (Seg::Opt(_), Bind::One(_)))))
-                    .unwrap_or(false);
-                let trailing_empty = c
-                    .inst
-                    .as_ref()
-                    .map(|(_, b)| matches!(b.last(), Some(Bind::Absent)) || matches!(b.last(), Some(Bind::Many(v)) if v.is_empty()))
-                    .unwrap_or(false);
+                let (opt_present, trailing_empty) = (sm.opt_present, sm.trailing_empty);
                 if norm_ok {
                     "base-path-form".into()
                 } else if prefix_class {
@@ -800,6 +847,7 @@ fn check_switches(
             } else {
                 "fragment-not-preserved".into()
             };
+            let how_txt = ["previous locale", "locale shown by the URL", "get_locale_from_path(current URL)"][*how as usize];
             return Err(Failure {
                 signature,
                 detail: json!({
@@ -809,7 +857,7 @@ fn check_switches(
                     "base_path": c.base,
                     "from_locale": name(cur_locale),
                     "locale_argument": locale_arg.map(|l| l.name()),
-                    "locale_argument_source": ["previous locale", "locale shown by the URL", "get_locale_from_path(current URL)"][*how as usize],
+                    "locale_argument_source": how_txt,
                     "new_locale": name(*target),
                     "expected_any_of": expected_urls,
                     "actual": actual,
@@ -956,18 +1004,17 @@ fn loc_seg_3(l: DynLocale) -> &'static str {
 }
 const LOC_FNS: [fn(DynLocale) -> &'static str; 4] = [loc_seg_0, loc_seg_1, loc_seg_2, loc_seg_3];
 
-type I18nSeg = leptos_i18n_router::__private_i18n_segment::Seg;
-
 /// one path segment of the template routes; every variant delegates to the real segment type
 #[derive(Clone, Debug)]
-enum DynSeg {
+enum DynSeg<I> {
     Static(StaticSegment<&'static str>),
     Param(ParamSegment),
     Splat(WildcardSegment),
-    I18n(I18nSeg),
+    /// the (unnameable) `I18nSegment` type returned by `i18n_path!`
+    I18n(I),
 }
 
-impl PossibleRouteMatch for DynSeg {
+impl<I: PossibleRouteMatch> PossibleRouteMatch for DynSeg<I> {
     fn test<'a>(&self, path: &'a str) -> Option<PartialPathMatch<'a>> {
         match self {
             DynSeg::Static(s) => s.test(path),
@@ -986,7 +1033,7 @@ impl PossibleRouteMatch for DynSeg {
     }
 }
 
-fn dyn_seg(seg: &Seg) -> DynSeg {
+fn dyn_seg(seg: &Seg) -> DynSeg<impl PossibleRouteMatch + Clone + std::fmt::Debug + Send + Sync + 'static> {
     match seg {
         Seg::Static(s) => DynSeg::Static(StaticSegment(intern(s))),
         Seg::Loc(k) => DynSeg::I18n(leptos_i18n_router::i18n_path!(DynLocale, LOC_FNS[*k])),
@@ -1017,7 +1064,7 @@ fn gen_template_table(t: &mut Tape, mask: Mask, set: &[u8]) -> Table {
                 .collect(),
         );
     }
-    let mut s = |t: &mut Tape, last: bool, first: bool| -> Seg {
+    let s = |t: &mut Tape, last: bool, first: bool| -> Seg {
         let w = [4u32, 4, if first { 1 } else { 2 }, if last { 1 } else { 0 }];
         match t.weighted(&w) {
             0 => Seg::Static(gen_static(t, mask, set)),
